@@ -375,6 +375,10 @@ func c19Adversarial() []c19Adv {
 		{"host-without-port", func(d map[string]interface{}) { d["milvus_connect_param"] = map[string]interface{}{"host": "h"} }},
 		{"rpc-channel-foreign", set("rpc_channel_info/name", "other-channel")},
 		{"rpc-position-undecodable", set("rpc_channel_info/position", "!!!")},
+		// requests that are fine on an empty server and refused because of a task that is already there (the duplicate
+		// check): the refusal must not touch the bookkeeping of that task
+		{"duplicate-collection", coll("b", nil)},
+		{"covered-by-wildcard-task", dbcoll("db1", "x")},
 		{"mapping-not-selected", func(d map[string]interface{}) {
 			d["name_mapping"] = []interface{}{map[string]interface{}{"source_db": "default", "target_db": "x", "collection_mapping": map[string]interface{}{"zzz": "q"}}}
 		}},
@@ -386,7 +390,7 @@ func TestVerifC19Rejects(t *testing.T) {
 	defer res.Write()
 	log.Info("warm up")
 	advs := c19Adversarial()
-	res.Rule = fmt.Sprintf("%d structurally valid create requests with adversarial values (names with '.', '/', empty, over-long; '*' with positions; undecodable / non-proto / non-virtual / malformed-vchannel / mixed-collection positions, a valid position followed by an undecodable one; negative buffer and timeout values; both / no targets; kafka without topic; user without password; foreign rpc channel; undecodable rpc position; mapping of an unselected collection) - each alone, in three more contexts of the request (rpc channel name left out, a valid collection position filled in, both) and together with every other one - sent to the empty server and after every accepted prefix of length <= 2 out of {create a, create db1/*, create a then pause}; the answer must be a well-formed error (or, if accepted, later requests must still be answered) and a rejected request must leave tasks, checkpoints, duplicate bookkeeping and the store dump unchanged; non-trivial = rejected requests on a non-empty server", len(advs))
+	res.Rule = fmt.Sprintf("%d structurally valid create requests with adversarial values (names with '.', '/', empty, over-long; '*' with positions; undecodable / non-proto / non-virtual / malformed-vchannel / mixed-collection positions, a valid position followed by an undecodable one; negative buffer and timeout values; both / no targets; kafka without topic; user without password; foreign rpc channel; undecodable rpc position; mapping of an unselected collection; a collection another task already replicates or covers with a wildcard) - each alone, in three more contexts of the request (rpc channel name left out, a valid collection position filled in, both) and together with every other one - sent to the empty server and after every accepted prefix of length <= 2 out of {create a, create db1/*, create a then pause}; the answer must be a well-formed error (or, if accepted, later requests must still be answered) and a rejected request must leave tasks, checkpoints, duplicate bookkeeping and the store dump unchanged; non-trivial = rejected requests on a non-empty server", len(advs))
 	prefixes := [][]map[string]interface{}{nil}
 	mk := func(id string, f func(d map[string]interface{})) map[string]interface{} {
 		d := c19Valid(id)["create"]
@@ -429,7 +433,8 @@ func TestVerifC19Rejects(t *testing.T) {
 		for _, c := range ctxs {
 			a, c := a, c
 			if c.Mut == nil {
-				variants = append(variants, c19Variant{a, a.Name != "name-with-slash"})
+				// (a request that only conflicts with another task is fine on a server that does not have that task)
+				variants = append(variants, c19Variant{a, a.Name != "name-with-slash" && a.Name != "duplicate-collection" && a.Name != "covered-by-wildcard-task"})
 				continue
 			}
 			variants = append(variants, c19Variant{c19Adv{a.Name + "@" + c.Name, func(d map[string]interface{}) { a.Mut(d); c.Mut(d) }}, false})
